@@ -339,6 +339,12 @@ theorem actTest_ref (hEq : EqSpec) {o : Opts} {e : Bool} {ov : Option Cst} {key 
           subst h1
           exact ⟨pc, (), by simp [actTest, hmiss, hx], hp, hc, hfst.symm, trivial⟩
 
+/-- a pointer outside RFC 6901: `test` finds nothing -/
+theorem opTest_path_none (o : Opts) (r : Root) (op : Op)
+    (hp : Spec.parsePointer op.path = none) : opTest o r op = .err .missing := by
+  rw [opTest_eq_nonroot o r op (parsePointer_none_ne_nil hp), withPath_of_parsePointer_none _ _ _ hp]
+  rfl
+
 theorem opTest_refines (hEq : EqSpec) {o : Opts} {e : Bool} {r : Root} {op : Op} {sop : Spec.Op}
     (sz acc : Nat) (hr : InvRoot e r)
     (hk : sop.kind = .test) (hpath : sop.path = op.path)
@@ -346,7 +352,9 @@ theorem opTest_refines (hEq : EqSpec) {o : Opts} {e : Bool} {r : Root} {op : Op}
     (hov : ∀ c, op.value = some c → c.valueOf.noDup = true) :
     OpRef e (Spec.applyOp (specOpts o) sz acc (den r.con) sop) (opTest o r op) := by
   cases hp : Spec.parsePointer op.path with
-  | none => simp only [Spec.applyOp, hpath, hp, OpRef]
+  | none =>
+    rw [spec_path_none (by rw [hpath]; exact hp) (by simp [hk]), opTest_path_none o r op hp]
+    exact ⟨.missing, rfl⟩
   | some toks =>
     cases toks with
     | nil =>
